@@ -419,8 +419,11 @@ func (e *Engine) GetCachedTemplateNames() []string {
 
 // RegisterTemplate directly registers a pre-built template
 func (e *Engine) RegisterTemplate(name string, template *Template) {
-	// Set the lastModified timestamp if it's not already set
-	if template.lastModified == 0 {
+	// Set the lastModified timestamp if it's not already set. A template that
+	// came from a loader keeps the stamp its loader gave it (also a stamp of 0):
+	// the object may be cached under the name it was loaded by as well, where
+	// the stamp decides whether it is reloaded
+	if template.lastModified == 0 && template.loader == nil {
 		template.lastModified = time.Now().Unix()
 	}
 
